@@ -85,7 +85,7 @@ func main() {
 		budget   = flag.Int("budget", 20_000_000, "instruction budget per path")
 		maxAlloc = flag.Int64("maxalloc", 64, "largest symbolic make() size the engine enumerates")
 		timeout  = flag.Int("timeout", 20000, "per-query solver timeout in ms")
-		solver   = flag.String("solver", "z3", "z3 | z3-new | cvc5")
+		solver   = flag.String("solver", "z3-new", "z3 | z3-new | cvc5")
 		workers  = flag.Int("j", 4, "worker count")
 		maxPaths = flag.Int("maxpaths", 0, "stop after this many paths (0 = unlimited)")
 		models   = flag.Int("models", 8, "path models to record for conformance")
